@@ -17,7 +17,8 @@ RULE = (
     "Users {MD5, SHA-1} x {authNoPriv, authPriv} (+ noAuthNoPriv for the flag/parameter "
     "monitors) against the independent agent. (a) password sweep: authentication and privacy "
     "passwords of every length 1..300 in thorough, a spread incl. lengths that do not divide "
-    "2^20 (3, 7, 13, 100, 129, 255, 257, 300) in quick; engine ids of 5..32 octets; random "
+    "2^20 (3, 7, 13, 100, 129, 255, 257, 300) in quick; engine ids of 5..32 octets (every "
+    "other case reuses one fixed engine id with new passwords); random "
     "boots/time. (b) length sweep: GET responses and SET requests padded by 0..300 octets so "
     "that total message, scoped-PDU and PDU length each take every value in 100..300 in both "
     "directions (coverage measured and reported). (c) operations get, multiget, getnext, "
@@ -223,6 +224,10 @@ def run(R):
             auth_pw = bytes(rng.randint(33, 126) for _ in range(n))
             priv_pw = bytes(rng.randint(33, 126) for _ in range(rng.choice((n, 8, 301 - n))))
             eng = bytes([0x80]) + bytes(rng.getrandbits(8) for _ in range(rng.randint(4, 31)))
+            if n % 2 == 0:
+                # the same user on the same engine with OTHER passwords, within one
+                # process: anything remembered per (user, engine) would be stale
+                eng = b"\x80\x00\x1f\x88\x04c10-fixed"
             boots = rng.choice((0, 1, 127, 128, 65535, 2**31 - 2, rng.randint(0, 2**31 - 2)))
             tshift = rng.choice((0, 1, 127, 128, 86400, 10**7, 2**31 - 1))
             one_world(R, level, "pw", n, auth_pw, priv_pw, eng, boots, tshift, ops=("get", "set"), pad=rng.choice((0, 5, 40)))
